@@ -16,7 +16,7 @@
 #include "et_core.h"
 
 /* ---------- configuration ---------- */
-static int et_opt_stayopen = 1, et_opt_conc_reinit = 1, et_opt_reload_destroy = 1;
+static int et_opt_stayopen = 1, et_opt_conc_reinit = 1, et_opt_reload_destroy = 1, et_opt_saveopt = 1;
 
 static void et_make_cfg(const char *profile, vh_rng_t *g, uint64_t idx)
 {
@@ -59,10 +59,7 @@ static void et_make_cfg(const char *profile, vh_rng_t *g, uint64_t idx)
     c->quiesce             = vh_chance(g, 1, 2);
     c->slow_cb_us          = vh_chance(g, 1, 4) ? 200 + (int)vh_below(g, 2000) : 0;
     c->reinit_mode         = (int)vh_below(g, 5);
-    c->reload_vs_destroy   = et_opt_reload_destroy && vh_chance(g, 1, 3);
-    if (!et_opt_conc_reinit && (c->reinit_mode == 2 || c->reinit_mode == 4)) {
-      c->reinit_mode = (c->reinit_mode == 2) ? 1 : 3;
-    }
+    c->reload_vs_destroy   = vh_chance(g, 1, 3);
     for (i = 0; i < ET_NSRV; i++) {
       uint32_t x = vh_below(g, 16);
       c->beh[i]  = x < 9 ? ET_B_ANSWER : x < 11 ? ET_B_DELAY : x < 12 ? ET_B_SILENT : x < 13 ? ET_B_SERVFAIL
@@ -78,15 +75,59 @@ static void et_make_cfg(const char *profile, vh_rng_t *g, uint64_t idx)
     }
     c->weights[K_QUERY] = c->weights[K_QUERY] ? c->weights[K_QUERY] : 4; /* never a run without requests */
     c->weights[K_PAUSE] = 4 + (int)vh_below(g, 6);
-    if (c->reload_vs_destroy && c->reinit_mode < 3) {
-      c->reinit_mode = 3;
-    }
-    if (c->servers_from_resolvconf) {
-      c->weights[K_SETSRV_PORTS] = c->weights[K_SETSRV] = 0; /* leave the server list to the file */
-      c->weights[K_CONFCHG] += 2;
-      c->weights[K_GETSRV]  += 2;
-      if (c->reinit_mode == 0 || c->reinit_mode == 1 || c->reinit_mode == 2) {
-        c->reinit_mode = et_opt_conc_reinit && c->reinit_mode == 2 ? 4 : 3;
+    /* ---- workload switches tied to open known findings ----------------------------------------------------
+     * Three open findings corrupt memory or kill the run when they trigger (unlocked ares_save_options()/ares_dup()
+     * overrunning its own output arrays, two joiners freeing one reload-thread handle, a reload thread using a
+     * channel that ares_destroy() is freeing), which would void the other monitors of the run.  While such a
+     * finding is open (option = 0) its trigger is kept out of the ordinary runs and confined to one case in six,
+     * shaped so that it still re-finds the finding; with the option at 1 (finding closed) every run is free to
+     * mix everything.                     idx%6 == 3: save_options/dup   4: reload vs destroy   5: concurrent reinit */
+    {
+      int sub        = (int)(idx % 6);
+      int f1_run     = !et_opt_saveopt && sub == 3;
+      int saveopt_ok = et_opt_saveopt || f1_run;
+      int f3_ok      = et_opt_reload_destroy || sub == 4;
+      int f2_ok      = et_opt_conc_reinit || sub == 5;
+      if (!f2_ok && (c->reinit_mode == 2 || c->reinit_mode == 4)) {
+        c->reinit_mode = (c->reinit_mode == 2) ? 1 : 3;
+      }
+      if (!et_opt_conc_reinit && sub == 5 && c->reinit_mode != 2 && c->reinit_mode != 4) {
+        c->reinit_mode = 2 + 2 * (int)vh_below(g, 2);
+      }
+      if (!f3_ok) {
+        c->reload_vs_destroy = 0;
+      } else if (!et_opt_reload_destroy) {
+        c->reload_vs_destroy = 1;
+      }
+      if (c->reload_vs_destroy && c->reinit_mode < 3) {
+        c->reinit_mode = 3;
+      }
+      if (c->servers_from_resolvconf && !f1_run) {
+        c->weights[K_SETSRV_PORTS] = c->weights[K_SETSRV] = 0; /* leave the server list to the file */
+        c->weights[K_CONFCHG] += 2;
+        c->weights[K_GETSRV]  += 2;
+        if (c->reinit_mode == 0 || c->reinit_mode == 1 || c->reinit_mode == 2) {
+          c->reinit_mode = (f2_ok && c->reinit_mode == 2) ? 4 : 3;
+        }
+      }
+      if (!saveopt_ok) {
+        c->weights[K_SAVEOPT] = c->weights[K_DUP] = 0;
+      }
+      if (f1_run) {
+        /* save_options/dup against writers that cannot make it overrun (no server-list growth, sortlists of one
+         * size) and without configuration changes (a duplicate watches the same directory) */
+        c->weights[K_SAVEOPT]       = 4;
+        c->weights[K_DUP]           = 2;
+        c->weights[K_SETSRV_PORTS]  = c->weights[K_SETSRV] = 0;
+        c->weights[K_SORTLIST]      = 3;
+        c->weights[K_CONFCHG]       = 0;
+        c->servers_from_resolvconf  = 0;
+        c->sortlist_one_size        = 1;
+        c->reload_vs_destroy        = 0;
+        c->reinit_mode              = (int)vh_below(g, 2);
+      }
+      if (!et_opt_reload_destroy && (c->reinit_mode == 3 || c->reinit_mode == 4)) {
+        c->weights[K_DUP] = 0; /* a duplicate destroyed while its own reload runs is the same finding */
       }
     }
   } else {
@@ -715,6 +756,7 @@ int main(int argc, char **argv)
   et_opt_stayopen    = (int)vh_opt_int(&a, "stayopen", 1);
   et_opt_conc_reinit = (int)vh_opt_int(&a, "conc_reinit", 1);
   et_opt_reload_destroy = (int)vh_opt_int(&a, "reload_destroy", 1);
+  et_opt_saveopt        = (int)vh_opt_int(&a, "saveopt", 1);
   if (strcmp(a.profile, "stress") != 0 && strcmp(a.profile, "timers") != 0) {
     fprintf(stderr, "unknown profile %s\n", a.profile);
     return 2;
